@@ -64,25 +64,15 @@ def power(x1: PolyLike, x2: PolyLike, **kwargs: Any) -> ndpoly:
         for _ in range(x2.item()):
             out = numpoly.multiply(out, x1, **kwargs)
 
-    elif x1.shape:
-        if x2.shape[-1] == 1:
-            if x1.shape[-1] == 1:
-                out = numpoly.power(x1.T[0].T, x2.T[0].T).T[numpy.newaxis].T
-            else:
-                out = numpoly.concatenate(
-                    [power(x, x2.T[0])[numpy.newaxis] for x in x1.T], axis=0
-                ).T
-        elif x1.shape[-1] == 1:
-            out = numpoly.concatenate(
-                [power(x1.T[0].T, x.T).T[numpy.newaxis] for x in x2.T], axis=0
-            ).T
-        else:
-            out = numpoly.concatenate(
-                [power(x1_, x2_).T[numpy.newaxis] for x1_, x2_ in zip(x1.T, x2.T)],
-                axis=0,
-            ).T
     else:
-        out = numpoly.concatenate(
-            [power(x1, x.T).T[numpy.newaxis] for x in x2.T], axis=0
-        ).T
+        # Array of exponents: raise to each distinct exponent once and keep
+        # the elements that ask for it.
+        shape = numpy.broadcast_shapes(x1.shape, x2.shape)
+        x2 = numpy.broadcast_to(x2, shape)
+        out = numpoly.polynomial(numpy.zeros(shape, dtype=x1.dtype))
+        for exponent in numpy.unique(x2):
+            mask = (x2 == exponent).astype(x1.dtype)
+            out = numpoly.add(
+                out, numpoly.multiply(power(x1, exponent, **kwargs), mask, **kwargs)
+            )
     return numpoly.polynomial(out)
